@@ -373,26 +373,30 @@ inductive Seg where
   | raw (bytes : List Nat)
   deriving DecidableEq, Repr, Inhabited
 
-structure St where
-  latch : Table              -- table most recently latched to
-  shift : Table              -- table to use for the next read
-  result : List Seg          -- `result` (already transformed segments)
-  decoded : List Nat         -- `decodedBytes`
-  enc : Option Nat           -- `encoding`
+/-! The Go loop keeps control state (`latchTable`, `shiftTable`, `index`) and data state (`result`,
+`decodedBytes`, `encoding`).  The data never influences the control flow, so the mirror is split:
+`step`/`loop` mirror the control flow and emit *events* (bytes appended to `decodedBytes`, FNC1,
+ECI switch); `segments` mirrors what the data state does with them (flush on FLG, final flush). -/
+
+inductive Event where
+  | bytes (bs : List Nat)     -- `decodedBytes = append(decodedBytes, ...)`
+  | fnc1                      -- FLG(0): flush, then `result = append(result, 29)`
+  | eci (n : Nat)             -- FLG(1..6): flush, then `encoding = charsetECI.GetCharset()`
+  | flush                     -- FLG(1..6) without enough digit bits: only the flush happened
   deriving DecidableEq, Repr, Inhabited
 
-def St.init : St := ⟨.upper, .upper, [], [], none⟩
+structure Ctl where
+  latch : Table              -- table most recently latched to
+  shift : Table              -- table to use for the next read
+  deriving DecidableEq, Repr, Inhabited
 
-/-- `transform.Append(encoding.NewDecoder(), result, decodedBytes)` (the text codecs are not modelled:
-    the segment is recorded with its character set) -/
-def St.flush (st : St) : St :=
-  if st.decoded.isEmpty then st
-  else { st with result := st.result ++ [.enc st.enc st.decoded], decoded := [] }
+def Ctl.init : Ctl := ⟨.upper, .upper⟩
 
 inductive Step where
-  | next (st : St) (rest : List Bool)    -- continue the `for index < endIndex` loop
-  | stop (st : St)                       -- `break` out of it
-  | fail (e : Fault)                     -- `return ..., err`
+  | next (c : Ctl) (rest : List Bool) (ev : List Event)   -- continue the `for index < endIndex` loop
+  | stop                                                  -- `break` out of it
+  | fail (e : Fault)                                      -- `return ..., err`
+  deriving DecidableEq, Repr
 
 /-- the byte loop of a binary shift: `length` bytes, or stop everything when the bits run out -/
 def takeBytes : Nat → List Bool → List Nat → (List Nat × List Bool)
@@ -415,10 +419,10 @@ def readDigits : Nat → List Bool → Nat → Res (Nat × List Bool)
 
 /-- one iteration of the main loop.  `registered eci` says whether `GetCharacterSetECIByValue`
     knows the value (`eci < 900` and in the registry). -/
-def step (T : Tables) (registered : Nat → Bool) (st : St) (bits : List Bool) : Step :=
-  if st.shift = .binary then
+def step (T : Tables) (registered : Nat → Bool) (c : Ctl) (bits : List Bool) : Step :=
+  if c.shift = .binary then
     match splitN? 5 bits with
-    | none => .stop st
+    | none => .stop
     | some (l5, bits1) =>
       let length := readCode l5
       let afterLen : Option (Nat × List Bool) :=
@@ -428,56 +432,74 @@ def step (T : Tables) (registered : Nat → Bool) (st : St) (bits : List Bool) :
           | some (l11, bits2) => some (readCode l11 + 31, bits2)
         else some (length, bits1)
       match afterLen with
-      | none => .stop st
+      | none => .stop
       | some (length, bits2) =>
         let (bytes, rest) := takeBytes length bits2 []
-        .next { st with decoded := st.decoded ++ bytes, shift := st.latch } rest
+        .next ⟨c.latch, c.latch⟩ rest [.bytes bytes]
   else
-    let size := if st.shift = .digit then 4 else 5
+    let size := if c.shift = .digit then 4 else 5
     match splitN? size bits with
-    | none => .stop st
+    | none => .stop
     | some (cb, bits1) =>
-      match getCharacter T st.shift (readCode cb) with
+      match getCharacter T c.shift (readCode cb) with
       | .error e => .fail e
       | .ok .flg =>
         match splitN? 3 bits1 with
-        | none => .stop st
+        | none => .stop
         | some (nb, bits2) =>
           let n := readCode nb
-          let st := st.flush
-          if n = 0 then
-            .next { st with result := st.result ++ [.raw [29]], shift := st.latch } bits2
+          if n = 0 then .next ⟨c.latch, c.latch⟩ bits2 [.fnc1]
           else if n = 7 then .fail .format
           else if bits2.length < 4 * n then
-            .next { st with shift := st.latch } bits2            -- `break` leaves the switch only
+            .next ⟨c.latch, c.latch⟩ bits2 [.flush]             -- `break` leaves the switch only
           else
             match readDigits n bits2 0 with
             | .error e => .fail e
             | .ok (eci, bits3) =>
               if eci ≥ 900 then .fail .format
               else if !registered eci then .fail .format           -- after `fix: aztec unregistered ECI`
-              else .next { st with enc := some eci, shift := st.latch } bits3
+              else .next ⟨c.latch, c.latch⟩ bits3 [.eci eci]
       | .ok (.ctrl t isLatch) =>
         -- latchTable = shiftTable; shiftTable = getTable(str[5]); if str[6]=='L' { latchTable = shiftTable }
-        .next { st with latch := if isLatch then t else st.shift, shift := t } bits1
-      | .ok (.lit bytes) =>
-        .next { st with decoded := st.decoded ++ bytes, shift := st.latch } bits1
+        .next ⟨if isLatch then t else c.shift, t⟩ bits1 []
+      | .ok (.lit bytes) => .next ⟨c.latch, c.latch⟩ bits1 [.bytes bytes]
 
-def loop (T : Tables) (registered : Nat → Bool) : Nat → St → List Bool → Res St
+def loop (T : Tables) (registered : Nat → Bool) : Nat → Ctl → List Bool → Res (List Event)
   | 0, _, _ => .error .fuel
-  | fuel + 1, st, bits =>
-    if bits.isEmpty then .ok st                 -- `index < endIndex` fails
+  | fuel + 1, c, bits =>
+    if bits.isEmpty then .ok []                 -- `index < endIndex` fails
     else
-      match step T registered st bits with
-      | .next st' rest => loop T registered fuel st' rest
-      | .stop st' => .ok st'
+      match step T registered c bits with
+      | .next c' rest ev => (loop T registered fuel c' rest).map (ev ++ ·)
+      | .stop => .ok []
       | .fail e => .error e
+
+/-- data state of the Go loop: `result` (segments already transformed), `decodedBytes`, `encoding` -/
+structure Data where
+  result : List Seg
+  decoded : List Nat
+  enc : Option Nat
+  deriving DecidableEq, Repr, Inhabited
+
+/-- `transform.Append(encoding.NewDecoder(), result, decodedBytes)` (the text codecs are not modelled:
+    the segment is recorded with its character set) -/
+def Data.flush (d : Data) : Data :=
+  if d.decoded.isEmpty then d
+  else { d with result := d.result ++ [.enc d.enc d.decoded], decoded := [] }
+
+def Data.apply (d : Data) : Event → Data
+  | .bytes bs => { d with decoded := d.decoded ++ bs }
+  | .fnc1 => let d := d.flush; { d with result := d.result ++ [.raw [29]] }
+  | .eci n => { d.flush with enc := some n }
+  | .flush => d.flush
+
+/-- what the events leave in `result` after the final flush -/
+def segments (evs : List Event) : List Seg :=
+  (evs.foldl Data.apply ⟨[], [], none⟩).flush.result
 
 /-- Go `getEncodedData(correctedBits)` = `HighLevelDecode` -/
 def getEncodedData (T : Tables) (registered : Nat → Bool) (bits : List Bool) : Res (List Seg) :=
-  match loop T registered (bits.length + 1) St.init bits with
-  | .error e => .error e
-  | .ok st => .ok st.flush.result
+  (loop T registered (bits.length + 1) Ctl.init bits).map segments
 
 /-- ISO-8859-1 bytes to UTF-8 (what Go's `string(result)` holds for the default character set) -/
 def latin1ToUtf8 (bs : List Nat) : List Nat :=
